@@ -1397,7 +1397,10 @@ class Builder:
             self.make_ents()
             bm: WeakKeyDictionary = WeakKeyDictionary()
             by_cls: dict = {}
-            for ent, r in zip(self.ent_objs, w['bmodels']):
+            pairs = list(zip(self.ent_objs, w['bmodels']))
+            if self.ex.get('__bmodels_insert_reversed'):
+                pairs.reverse()          # the mapping is filled brush entities first, worldspawn last
+            for ent, r in pairs:
                 if r is None:
                     continue
                 if r['cls'] not in by_cls:
